@@ -76,13 +76,14 @@ def _templates(express, op):
     T1  slow validator outlives the lifetime, the same name is expressed again meanwhile, Data arrives again
     T2  partial satisfaction (mixed CanBePrefix / digest on one name), then a second Data
     T3  cancel, re-express on the same name, late packet
+    T6  a cancel racing the answering packet while a second Interest waits for the same packet
     T5  the answering Data scheduled (before the Interest is expressed) for the very instant its lifetime ends
     T4  two Interests on one name, one satisfied by a longer-named Data gives up during its validation, then the other's Data"""
     nm = st.lists(st.sampled_from(ALPHA[:2]), min_size=1, max_size=2)
 
     @st.composite
     def t(draw):
-        which = draw(st.sampled_from(['T1', 'T1', 'T2', 'T3', 'T4', 'T5']))
+        which = draw(st.sampled_from(['T1', 'T1', 'T2', 'T3', 'T4', 'T5', 'T6']))
         n = draw(nm)
         life = draw(st.sampled_from([5, 50]))
         mode = draw(st.sampled_from(['await', 'task']))
@@ -107,6 +108,16 @@ def _templates(express, op):
                     {'op': 'adv', 'ms': 1},
                     {'op': 'data', 'of': 99, 'ext': draw(st.sampled_from([[], ['a']])), 'mode': mode},
                     {'op': 'data', 'of': 99, 'ext': [], 'mode': mode}]
+        elif which == 'T6':
+            # the caller gives up in the very loop iteration in which the answer is handed over; a second Interest on the name
+            # (or a nested one) is still served by that packet
+            core = [{'op': 'express', 'name': n, 'cbp': draw(st.booleans()), 'digest': 'none', 'life': 4000, 'vlat': '0', 'verdict': True,
+                     'stock': draw(st.booleans())},
+                    {'op': 'express', 'name': n if draw(st.booleans()) else n[:1], 'cbp': True, 'digest': 'none', 'life': 4000,
+                     'vlat': '0', 'verdict': True, 'stock': draw(st.booleans())},
+                    {'op': 'adv', 'ms': draw(st.sampled_from([0, 1, 30]))},
+                    {'op': 'cancel', 'i': draw(st.sampled_from([0, 1])), 'race': draw(st.sampled_from(['data', 'data', 'nack']))},
+                    {'op': 'adv', 'ms': 1}]
         elif which == 'T5':
             # the answer is due at the very instant the lifetime ends, and its timer was registered first
             core = [{'op': 'sched_data', 'name': n, 'after': life + draw(st.sampled_from([0, 0, 0, -1, 1]))},
